@@ -10,6 +10,11 @@ assert run('git -C /repo diff --quiet').returncode==0, '/repo dirty'
 summary=[]
 for sid in ids:
     d=f'{V}/seeded/{sid}'; prop=sid.split('-')[0]
+    if os.path.exists(d+'/neutralised.txt'):
+        status={'applies':True,'neutralised':True,'note':open(d+'/neutralised.txt').read().strip()}
+        meta={'seed':sid,'breaks_property':prop,'needs_to_manifest':NEEDS.get(sid,{}).get('needs',''),'change':NEEDS.get(sid,{}).get('change',''),'result':status}
+        json.dump(meta,open(d+'/meta.json','w'),indent=1)
+        print(sid,'NEUTRALISED'); continue
     a=run(f'git -C /repo apply {d}/patch.diff')
     if a.returncode!=0:
         status={'applies':False,'note':'patch no longer applies to /repo HEAD (the code it touched was changed by a later fix: commit); detection must be re-checked with an equivalent change'}
